@@ -391,3 +391,17 @@ for _prop in ("C05", "C06", "C17"):
                 S.forall("outward-unit-normal-of-this-end", Tensor(nrm), lambda q: zreal(nrm.at([q[0], ()])) == (-1 if side == "left" else 1))
     _single_end.__name__ = "interval_end_point_objects_membership_and_normal"
     scenario(_prop, ([SBP + "._contains"] if _prop != "C06" else []) + ([SBP + ".normal"] if _prop != "C05" else []) + [SBP + ".__call__", SBP + ".__init__"], configs=[f"{s}/{h}" for s in ("left", "right") for h in ("plain", "evaluated")], bounded=BOUND)(_single_end)
+
+
+@scenario("C10", [SBP + "._get_volume"], configs=["left", "right"], bounded=BOUND)
+def interval_end_point_has_counting_measure_one(S):
+    """the measure of one end point of an interval (a 0-dimensional boundary piece) is 1 for every parameter row -- the
+    value density sampling on it multiplies with"""
+    lo = RowFn("lower_bound", ["t"], 1, {"t": 1})
+    up = RowFn("upper_bound", ["t"], 1, {"t": 1})
+    dom = S.new(DPKG + "domain1D.interval.Interval", S.new(R1, "x"), lo, up)
+    bd = S.getattr(dom, "boundary_left" if S.cfg == "left" else "boundary_right")
+    K = S.int("K", 1)
+    v = S.method(bd, "volume", S.new(POINTS, S.tensor("tt", [K, 1]), S.new(R1, "t"))).val
+    S.ensure("one-value-per-parameter-row", v.rank == 2 and v.shape[0].size_term() == zint(K) and v.shape[1].is_one)
+    S.forall("measure-one", Tensor(v), lambda q: zreal(v.at(q)) == 1)
